@@ -47,6 +47,79 @@ func parseKey(s string) []int {
 	}
 	return k
 }
+
+// How the components are spelled in the bucket (the model knows them as small numbers): plain names, names with
+// percent signs, escapes and spaces, an EMPTY component (keys like "logs//app.log"), dot components.  S3 allows all of them.
+var s3namings = [][]string{
+	{"1", "2", "3"},
+	{"a%2Fb.csv", "100%", "x y"},
+	{"d", "é+q", ""},
+	{".", "k", ".."},
+	{"1", "", "%41"},
+}
+var s3names = s3namings[0]
+
+func keyName(k []int) string {
+	p := make([]string, len(k))
+	for i, c := range k {
+		p[i] = s3names[c-1]
+	}
+	return strings.Join(p, "/")
+}
+
+// parseName is the exact inverse of keyName (no trimming: an empty component is a component)
+func parseName(s string) ([]int, bool) {
+	k := []int{}
+	for _, p := range strings.Split(s, "/") {
+		found := false
+		for i, n := range s3names {
+			if n == p {
+				k = append(k, i+1)
+				found = true
+			}
+		}
+		if !found {
+			return nil, false
+		}
+	}
+	return k, true
+}
+func parsePrefix(s string) []int {
+	if s == "" {
+		return []int{}
+	}
+	k, ok := parseName(strings.TrimSuffix(s, "/"))
+	if !ok {
+		return []int{99}
+	}
+	return k
+}
+func parseMarker(s string) []int {
+	if s == "" {
+		return []int{}
+	}
+	k, ok := parseName(s)
+	if !ok {
+		return []int{99}
+	}
+	return k
+}
+
+// a naming is usable for a bucket when no key would be spelled as the empty string
+func namingOK(names []string, keys [][]int) bool {
+	for _, k := range keys {
+		all := true
+		for _, c := range k {
+			if names[c-1] != "" {
+				all = false
+			}
+		}
+		if all {
+			return false
+		}
+	}
+	return true
+}
 func lessKey(a, b []int) bool {
 	for i := 0; i < len(a) && i < len(b); i++ {
 		if a[i] != b[i] {
@@ -133,15 +206,19 @@ func (b *s3bucket) serve(r s3req, n int) (page []s3entry, truncated bool) {
 
 func tokStr(e s3entry) string {
 	if e.CP {
-		return "p:" + keyStr(e.K)
+		return "p:" + keyName(e.K)
 	}
-	return "k:" + keyStr(e.K)
+	return "k:" + keyName(e.K)
 }
 func parseTok(s string) s3entry {
 	if s == "" {
 		return s3entry{K: []int{}}
 	}
-	return s3entry{K: parseKey(s[2:]), CP: strings.HasPrefix(s, "p:")}
+	k, ok := parseName(s[2:]) // ("p:" alone is the prefix made of one empty component)
+	if !ok {
+		k = []int{99}
+	}
+	return s3entry{K: k, CP: strings.HasPrefix(s, "p:")}
 }
 
 const s3host = "bucket.s3.example.com"
@@ -152,13 +229,13 @@ func (r s3req) url() string {
 		q.Set("list-type", "2")
 		q.Set("delimiter", "/")
 		if len(r.Prefix) > 0 {
-			q.Set("prefix", keyStr(r.Prefix)+"/")
+			q.Set("prefix", keyName(r.Prefix)+"/")
 		}
 		if len(r.Tok.K) > 0 {
 			q.Set("continuation-token", tokStr(r.Tok))
 		}
 	} else if len(r.Marker) > 0 {
-		q.Set("marker", keyStr(r.Marker))
+		q.Set("marker", keyName(r.Marker))
 	}
 	return "https://" + s3host + "/?" + q.Encode()
 }
@@ -166,19 +243,19 @@ func (r s3req) url() string {
 func (b *s3bucket) xml(r s3req, page []s3entry, truncated bool) string {
 	var sb strings.Builder
 	sb.WriteString(`<?xml version="1.0" encoding="UTF-8"?>` + "\n" + `<ListBucketResult xmlns="http://s3.amazonaws.com/doc/2006-03-01/"><Name>bucket</Name>`)
-	sb.WriteString("<Prefix>" + keyStr(r.Prefix) + "</Prefix><IsTruncated>" + strconv.FormatBool(truncated) + "</IsTruncated>")
+	sb.WriteString("<Prefix>" + keyName(r.Prefix) + "</Prefix><IsTruncated>" + strconv.FormatBool(truncated) + "</IsTruncated>")
 	if truncated && r.V2 && len(page) > 0 {
 		sb.WriteString("<NextContinuationToken>" + tokStr(page[len(page)-1]) + "</NextContinuationToken>")
 	}
 	for _, e := range page {
 		if e.CP {
-			sb.WriteString("<CommonPrefixes><Prefix>" + keyStr(e.K) + "/</Prefix></CommonPrefixes>")
+			sb.WriteString("<CommonPrefixes><Prefix>" + keyName(e.K) + "/</Prefix></CommonPrefixes>")
 		} else {
 			size := 100 + len(e.K)
 			if b.zero[keyStr(e.K)] {
 				size = 0
 			}
-			sb.WriteString("<Contents><Key>" + keyStr(e.K) + "</Key><LastModified>2024-01-01T00:00:00.000Z</LastModified><Size>" + strconv.Itoa(size) + "</Size></Contents>")
+			sb.WriteString("<Contents><Key>" + keyName(e.K) + "</Key><LastModified>2024-01-01T00:00:00.000Z</LastModified><Size>" + strconv.Itoa(size) + "</Size></Contents>")
 		}
 	}
 	sb.WriteString("</ListBucketResult>")
@@ -202,13 +279,17 @@ func c19s3(args []string) error {
 
 	walk := func(b *s3bucket, v2 bool, n int) {
 		walkNo++
+		s3names = s3namings[walkNo%len(s3namings)]
+		if !namingOK(s3names, b.keys) {
+			s3names = s3namings[0]
+		}
 		zero := [][]int{}
 		for _, k := range b.keys {
 			if b.zero[keyStr(k)] {
 				zero = append(zero, k)
 			}
 		}
-		tr.Emit(map[string]any{"ev": "s3.start", "walk": walkNo, "v2": v2, "n": n, "bucket": b.keys, "zero": zero})
+		tr.Emit(map[string]any{"ev": "s3.start", "walk": walkNo, "v2": v2, "n": n, "bucket": b.keys, "zero": zero, "names": s3names})
 		start := s3req{V2: v2, Prefix: []int{}, Tok: s3entry{K: []int{}}, Marker: []int{}}
 		frontier := []s3req{start}
 		visited := map[string]bool{}
@@ -248,11 +329,15 @@ func c19s3(args []string) error {
 				}
 				if pu.Path == "/" || pu.Path == "" {
 					q := pu.Query()
-					nr := s3req{V2: q.Get("list-type") == "2", Prefix: parseKey(q.Get("prefix")), Tok: parseTok(q.Get("continuation-token")), Marker: parseKey(q.Get("marker"))}
+					nr := s3req{V2: q.Get("list-type") == "2", Prefix: parsePrefix(q.Get("prefix")), Tok: parseTok(q.Get("continuation-token")), Marker: parseMarker(q.Get("marker"))}
 					listings = append(listings, nr)
 					frontier = append(frontier, nr)
 				} else {
-					k := parseKey(pu.Path)
+					k, ok := parseName(strings.TrimPrefix(pu.Path, "/"))
+					if !ok { // not the URL of any object of this bucket
+						other = append(other, l.Raw)
+						continue
+					}
 					objects = append(objects, k)
 					queued[keyStr(k)] = true
 				}
@@ -265,7 +350,7 @@ func c19s3(args []string) error {
 			if ls == nil {
 				ls = []s3req{}
 			}
-			ev := map[string]any{"ev": "s3.page", "walk": walkNo, "req": req, "page": map[string]any{"entries": pentries, "truncated": truncated},
+			ev := map[string]any{"ev": "s3.page", "walk": walkNo, "req": req, "v2": req.V2, "page": map[string]any{"entries": pentries, "truncated": truncated},
 				"listings": ls, "objects": objects, "other": other}
 			if xerr != nil {
 				ev["err"] = xerr.Error()
